@@ -33,6 +33,7 @@ EXAMPLES = {
     ':ARG[0-9]': [':ARG0', ':ARG9'], ':op[0-9]+': [':op1', ':op10'], ':snt[0-9]+': [':snt2'],
     ':p[0-9]+': [':p1', ':p22'], ':q[ab]': [':qa', ':qb'],
     ':(u|w)-of': [':u-of', ':w-of'], ':prep-(out|in-place)-of': [':prep-out-of', ':prep-in-place-of'],
+    ':prep-[a-z]+(-to)?': [':prep-on', ':prep-in-to'], ':w(-of)?': [':w', ':w-of'],
 }
 
 
@@ -175,6 +176,13 @@ def _get(name):
         # ever an inversion of the other
         spec = {'roles': {':x': {}, ':x-of': {}, ':r0': {}, ':w(-of)?': {}, ':k': {}},
                 'normalizations': {':k-of': ':r0'}, 'reifications': []}
+        m, rm = from_spec(spec, name)
+        e = (name, m, rm, spec)
+    elif name == 'prefix':
+        # pattern roles that match a proper prefix of a literal role (which itself ends in -of)
+        spec = {'roles': {':op[0-9]+': {}, ':op1-x-of': {}, ':prep-[a-z]+(-to)?': {}, ':prep-on-top-of': {},
+                          ':r0': {}, ':r0-z': {}, ':r': {}},
+                'normalizations': {':r0-of': ':r'}, 'reifications': []}
         m, rm = from_spec(spec, name)
         e = (name, m, rm, spec)
     elif name == 'mini':
